@@ -7,6 +7,7 @@ import OsloPolicy.Model.Sched
 import OsloPolicy.Model.External
 import OsloPolicy.Model.SampleGen
 import OsloPolicy.Model.Tools
+import OsloPolicy.Model.Checker
 import OsloPolicy.Generated.PyTables
 /-
 JSON-lines driver: one request per line on stdin, one answer per line on stdout.
@@ -342,6 +343,26 @@ def handle (j : Json) : Except String Json := do
     | "tool_convert" => pure (Json.mkObj [("out", outC (toolConvert file regs))])
     | "tool_generate" => pure (Json.mkObj [("out", outC (toolGenerate file regs))])
     | _ => pure (Json.mkObj [("names", .arr ((toolRedundant file regs).map fun n => Json.str (l2s n)).toArray)])
+  | "checker" => do
+    -- {"rules":[…], "token":<obj>, "is_admin":b, "target_file":<obj>|null, "requested":str|null, "lit":{…}}
+    let rules0 ← rulesOf j
+    let rules : Rules := { rules0 with default := .name "default".toList }
+    let token ← tgtOf (← toJVal (getD j "token"))
+    let tf ← match getD j "target_file" with
+      | .null => pure none
+      | t => do let v ← tgtOf (← toJVal t); pure (some v)
+    let credsL := deriveCreds token (getBoolD j "is_admin")
+    let tgt := deriveTarget token credsL tf
+    let creds : JVal := .obj credsL []
+    let env := envOf j
+    let leafOf := fun (c : JVal) (cur : Option Str) => leafEval env tgt c cur
+    let req : Option Str := match getD j "requested" with | .str s => some (s2l s) | _ => none
+    let res := checkerRun rules leafOf (getNatD j "fuel" 64) creds req
+    let verdict (o : Outcome) : String := match o with
+      | .ret true => "passed" | .ret false => "failed" | .raise _ => "exception"
+    pure (Json.mkObj [("lines", .arr (res.map fun (k, o) => Json.arr #[Json.str (l2s k), Json.str (verdict o)]).toArray),
+      ("target", .arr (tgt.map fun (k, v) => Json.arr #[Json.str (l2s k), Json.str (l2s v.pyStr)]).toArray),
+      ("cred_keys", .arr (credsL.map fun (k, _) => Json.str (l2s k)).toArray)])
   | "spec_den" => do
     -- {"e": <stratified expression>, "assign": [[true leaf texts…]…]} ↦ Boolean value of the
     -- sentence under each assignment, computed by Spec.Grammar (not by the parser model)
